@@ -255,6 +255,9 @@ func (e *engine) runBlockChunk(chunk, nSpecs int) {
 					map[string]any{"chunk": chunk, "case": i, "field": m.field, "spec": s.J(), "mutated": ms.J(), "hash": h0.String()})
 			}
 		}
+		if !amev && i%4 == 1 {
+			e.blockObservations(rng, chunk, i, s, h0)
+		}
 		// signatures: every 4th spec (ECDSA is the expensive part)
 		if i%4 == 0 && other != nil {
 			evals += e.blockSignChecks(rng, chunk, i, kind, sc, s, *other, h0)
@@ -341,4 +344,34 @@ func (e *engine) blockSignChecks(rng *rand.Rand, chunk, i int, kind, sc string, 
 		e.viol("block-verify-accepts-bitflipped-signature:"+kind, fmt.Sprintf("bit-flipped signature verifies (panic=%v)", p), w(map[string]any{"sig": hx(sig1), "flipped": hx(bad)}))
 	}
 	return n
+}
+
+// blockObservations measures two behaviours of neoBlock that are reported, not asserted.
+func (e *engine) blockObservations(rng *rand.Rand, chunk, i int, s blockSpec, h0 h256) {
+	// (a) Hash() before SetTransactions
+	nb := consensus.NewBlock(s.TS, s.Index, s.Prev, s.Nonce, append([]h256(nil), s.Tx...))
+	hz := nb.Hash()
+	if hz == (h256{}) {
+		e.r.Count("obs."+obsBlockZero+".zero", 1)
+	} else {
+		e.r.Count("obs."+obsBlockZero+".nonzero", 1)
+	}
+	if !notAsserted(obsBlockZero) && hz != h0 {
+		e.viol("block-hash-depends-on-SetTransactions-call", "Hash() differs before and after SetTransactions", map[string]any{"chunk": chunk, "case": i, "spec": s.J()})
+	}
+	// (b) SetTransactions with a list that differs from the hashes given to NewBlock
+	other, _ := txAppend(rng, s.Tx)
+	txs := make([]dbft.Transaction[h256], len(other))
+	for k := range other {
+		txs[k] = &htx{other[k]}
+	}
+	nb.SetTransactions(txs)
+	if nb.Hash() == h0 {
+		e.r.Count("obs."+obsBlockSetTx+".hash_unchanged", 1)
+		if !notAsserted(obsBlockSetTx) {
+			e.viol("block-hash-unbound:neoBlock:SetTransactions", "Hash() ignores the transactions given to SetTransactions", map[string]any{"chunk": chunk, "case": i, "spec": s.J()})
+		}
+	} else {
+		e.r.Count("obs."+obsBlockSetTx+".hash_changed", 1)
+	}
 }
